@@ -20,3 +20,8 @@ def fill(claim, na):
       'Decision procedure over all syntactic paths: every line definition, PDF value function and needs_filing method of all three years (about 2 550 definitions, 4 900 paths) is abstractly interpreted with helpers and the core methods it calls inlined from source; every input/line/form/threshold/enum/attribute/callee reference on any path is resolved against the statically built same-year catalogue (rules R10.1-R10.9, incl. unbounded indices into fixed name blocks and s.form() availability). Exhaustive over the shipped definitions; independent of which inputs make a path execute.',
       'Trusted: sa/interp.py and sa/lineabs.py (fail closed: unmodelled constructs are listed as undecided or raise an analysis error; floors on the number of definitions, paths, reads and call sites). Assumes integer inputs used to build names are >= 0. Forms in sa/data/absent_forms.json (1040_s2, 1099-oid) are accepted as deliberately absent.',
       'abstract interpretation of line definitions (path enumeration, inlined helpers) + catalogue resolution', 'DESIGN.md §3 C10')
+
+    c('C18',
+      'Exhaustive table-versus-artifact agreement: all ~1 800 (form instance, mapping) pairs of the three years are compared with the field tree, kinds, export values, /MaxLen / maxChars, /Opt lists and XFA accessibility labels parsed from the 39 bundled PDF templates (stdlib PDF reader); exclusive check-box groups are decided by evaluating each mapping value function over the finite domain of its driving line; filing forms must have template, mappings and the sequence number the template prints.',
+      'Trusted: sa/pdfx.py (object streams, AcroForm tree, XFA template packet) with floors on parsed fields/labels; eight label exceptions confirmed by reading are frozen in sa/data/label_exceptions.json, one per template field with a reason. Not decided: what pdftk does with the form data; NC filing-status boxes driven by five separate lines are not judged for exclusivity.',
+      'cross-artifact agreement check (statically evaluated pdf_fields tables vs parsed PDF templates)', 'DESIGN.md §3 C18')
